@@ -573,7 +573,7 @@ pub fn accum_step_l1_n3() {
     accum_step::<1, 3>()
 }
 
-//@ harness props=C12,C02 tier=quick unwind=12 mem_gb=4 timeout=600
+//@ harness props=C12,C02,C07,C09 tier=quick unwind=12 mem_gb=4 timeout=600
 //@ bound: LzAccumBuffer::{reset,finish} with 3 buffered bytes, sink failing or not
 #[cfg_attr(kani, kani::proof)]
 #[cfg_attr(kani, kani::stub(std::fmt::format, crate::verif_common::stub_format))]
@@ -696,7 +696,7 @@ pub fn circ_finish_empty() {
     forget(r);
 }
 
-//@ harness props=C09,C10,C01 tier=thorough unwind=12 mem_gb=6 timeout=1200
+//@ harness props=C09,C10,C01 tier=thorough unwind=12 mem_gb=6 timeout=1200 opt_covers=wrap_inside_copy
 //@ bound: circular window D=4 cursor=0 full, copy length<=3, any dist
 #[cfg_attr(kani, kani::proof)]
 #[cfg_attr(kani, kani::stub(std::fmt::format, crate::verif_common::stub_format))]
@@ -732,7 +732,7 @@ pub fn circ_lz_full_d5_c4() {
     circ_lz_full::<5, 4>()
 }
 
-//@ harness props=C09,C10,C01 tier=thorough unwind=12 mem_gb=6 timeout=1200
+//@ harness props=C09,C10,C01 tier=thorough unwind=12 mem_gb=6 timeout=1200 opt_covers=wrap_inside_copy
 //@ bound: circular window D=6 cursor=0 full, copy length<=3, any dist
 #[cfg_attr(kani, kani::proof)]
 #[cfg_attr(kani, kani::stub(std::fmt::format, crate::verif_common::stub_format))]
